@@ -2,6 +2,8 @@
 
 package bmc
 
+import "github.com/gebn/bmc/pkg/ipmi"
+
 // Contracts for package bmc (machine-checked by /verif/engine; see /verif/DESIGN.md).
 
 // ---- cipher_suites.go
@@ -133,3 +135,135 @@ package bmc
 //@ requires [reader.valid] !isnil(r) && !isnil(s) && !isnil(r.linearReader) && !isnil(r.lineariser) && (holdsFunc(r.lineariser, "math.Log") || holdsFunc(r.lineariser, "math.Log10") || holdsFunc(r.lineariser, "math.Log2") || holdsFunc(r.lineariser, "math.Exp") || holdsFunc(r.lineariser, "math.Exp2") || holdsFunc(r.lineariser, "math.Sqrt") || holdsFunc(r.lineariser, "github.com/gebn/bmc/pkg/ipmi.init@linearisation.go#1") || holdsFunc(r.lineariser, "github.com/gebn/bmc/pkg/ipmi.init@linearisation.go#2") || holdsFunc(r.lineariser, "github.com/gebn/bmc/pkg/ipmi.init@linearisation.go#3") || holdsFunc(r.lineariser, "github.com/gebn/bmc/pkg/ipmi.init@linearisation.go#4") || holdsFunc(r.lineariser, "github.com/gebn/bmc/pkg/ipmi.init@linearisation.go#5")) && (holdsFunc(r.linearReader.parser, "github.com/gebn/bmc/pkg/ipmi.parseAnalogDataFormatUnsigned") || holdsFunc(r.linearReader.parser, "github.com/gebn/bmc/pkg/ipmi.parseAnalogDataFormatOnesComplement") || holdsFunc(r.linearReader.parser, "github.com/gebn/bmc/pkg/ipmi.parseAnalogDataFormatTwosComplement"))
 //@ ensures [C15.lread-flags] result1 == nil ==> !r.linearReader.readingCmd.Rsp.ReadingUnavailable && r.linearReader.readingCmd.Rsp.ScanningEnabled
 //@ ensures [C15.lread-value] result1 == nil ==> result0 == r.lineariser.Linearise(r.linearReader.factors.ConvertReading(r.linearReader.parser.Parse(r.linearReader.readingCmd.Rsp.Reading)))
+
+// ---- authenticator.go: RAKP key derivation (IPMI v2.0 13.28, 13.31, 13.32)
+//
+// The spec functions below are the handshake of the specification in
+// deductive form: each names the bytes hashed, in order, over the hash ghost
+// (hAbsorb* / hIsDigest, see the prelude). Role_M is the whole byte of RAKP
+// Message 1: requested privilege in bits 3:0, bit 4 set for name-only lookup.
+
+func specRole(m *ipmi.RAKPMessage1) uint8 {
+	r := uint8(m.MaxPrivilegeLevel)
+	if !m.PrivilegeLevelLookup {
+		r |= 1 << 4
+	}
+	return r
+}
+
+func specLE32(st int, v uint32) int {
+	return hAbsorbByte(hAbsorbByte(hAbsorbByte(hAbsorbByte(st, uint8(v)), uint8(v>>8)), uint8(v>>16)), uint8(v>>24))
+}
+
+// specUser: Role_M, ULength_M, UName_M
+func specUser(st int, m *ipmi.RAKPMessage1) int {
+	return hAbsorbStr(hAbsorbByte(hAbsorbByte(st, specRole(m)), uint8(len(m.Username))), m.Username)
+}
+
+// SIK = HMAC_KG(R_M | R_C | Role_M | ULength_M | UName_M)  (13.31)
+func specSIKInput(st int, m1 *ipmi.RAKPMessage1, m2 *ipmi.RAKPMessage2) int {
+	return specUser(hAbsorb(hAbsorb(st, m1.RemoteConsoleRandom[:]), m2.ManagedSystemRandom[:]), m1)
+}
+
+// RAKP 2 AuthCode = HMAC_Kuid(SID_M | SID_C | R_M | R_C | GUID_C | Role_M | ULength_M | UName_M)  (13.28 / 13.31)
+func specRAKP2Input(st int, m1 *ipmi.RAKPMessage1, m2 *ipmi.RAKPMessage2) int {
+	return specUser(hAbsorb(hAbsorb(hAbsorb(specLE32(specLE32(st, m2.RemoteConsoleSessionID), m1.ManagedSystemSessionID), m1.RemoteConsoleRandom[:]), m2.ManagedSystemRandom[:]), m2.ManagedSystemGUID[:]), m1)
+}
+
+// RAKP 3 AuthCode = HMAC_Kuid(R_C | SID_M | Role_M | ULength_M | UName_M)
+func specRAKP3Input(st int, m1 *ipmi.RAKPMessage1, m2 *ipmi.RAKPMessage2) int {
+	return specUser(specLE32(hAbsorb(st, m2.ManagedSystemRandom[:]), m2.RemoteConsoleSessionID), m1)
+}
+
+// RAKP 4 ICV = HMAC_SIK(R_M | SID_C | GUID_C)
+func specRAKP4Input(st int, m1 *ipmi.RAKPMessage1, m2 *ipmi.RAKPMessage2) int {
+	return hAbsorb(specLE32(hAbsorb(st, m1.RemoteConsoleRandom[:]), m1.ManagedSystemSessionID), m2.ManagedSystemGUID[:])
+}
+
+//@ func calculateSIK
+//@ props C01
+//@ requires [hash.args] !isnil(h) && !isnil(rakpMessage1) && !isnil(rakpMessage2)
+//@ ensures [C01.sik-input] hIsDigest(result, old(specSIKInput(hState(h), rakpMessage1, rakpMessage2))) && len(result) == hSizeOf(h)
+//@ ensures [C01.sik-reset] hState(h) == hInit(h)
+
+//@ func calculateRAKPMessage2AuthCode
+//@ props C01 C02
+//@ requires [hash.args] !isnil(h) && !isnil(rakpMessage1) && !isnil(rakpMessage2)
+//@ ensures [C02.rakp2-input] hIsDigest(result, old(specRAKP2Input(hState(h), rakpMessage1, rakpMessage2))) && len(result) == hSizeOf(h)
+//@ ensures [C02.rakp2-reset] hState(h) == hInit(h)
+
+//@ func calculateRAKPMessage3AuthCode
+//@ props C01
+//@ requires [hash.args] !isnil(h) && !isnil(rakpMessage1) && !isnil(rakpMessage2)
+//@ ensures [C01.rakp3-input] hIsDigest(result, old(specRAKP3Input(hState(h), rakpMessage1, rakpMessage2))) && len(result) == hSizeOf(h)
+//@ ensures [C01.rakp3-reset] hState(h) == hInit(h)
+
+//@ func calculateRAKPMessage4ICV
+//@ props C01 C02
+//@ requires [hash.args] !isnil(h) && !isnil(rakpMessage1) && !isnil(rakpMessage2)
+//@ ensures [C02.rakp4-input] hIsDigest(result, old(specRAKP4Input(hState(h), rakpMessage1, rakpMessage2))) && len(result) == hSizeOf(h)
+//@ ensures [C02.rakp4-reset] hState(h) == hInit(h)
+
+//@ func executeHash
+//@ props C01 C03
+//@ option nilable:h
+//@ ensures [C01.exec-nil] isnil(h) ==> isnil(result)
+//@ ensures [C01.exec-digest] !isnil(h) ==> hIsDigest(result, old(hAbsorb(hState(h), b))) && len(result) == hSizeOf(h) && hState(h) == hInit(h)
+
+// K_N = HMAC_SIK(N repeated 20 times) (13.32; the constant is 20 bytes for every algorithm, issue #49)
+func specAbsorb5(st int, b uint8) int {
+	return hAbsorbByte(hAbsorbByte(hAbsorbByte(hAbsorbByte(hAbsorbByte(st, b), b), b), b), b)
+}
+func specKInput(st int, n uint8) int {
+	return specAbsorb5(specAbsorb5(specAbsorb5(specAbsorb5(st, n), n), n), n)
+}
+
+//@ func additionalKeyMaterialGenerator.K
+//@ props C01
+//@ ensures [C01.k-nil] isnil(g.hash) ==> isnil(result)
+//@ ensures [C01.k-input] !isnil(g.hash) ==> hIsDigest(result, old(specKInput(hState(g.hash), uint8(n)))) && len(result) == hSizeOf(g.hash) && hState(g.hash) == hInit(g.hash)
+//@ invariant 0 [k.fill] 0 <= i && i <= 20 && len(constant) == 20 && forall(qk, 0, i, constant[qk] == uint8(n))
+//@ decreases 0 20 - i
+
+//@ func truncatedHash.Size
+//@ props C01
+//@ ensures [C01.trunc-size] result == t.length
+
+//@ func truncatedHash.Sum
+//@ props C01 C03
+//@ requires [trunc.inner] !isnil(t.Hash) && t.length >= 0 && t.length <= hSizeOf(t.Hash)
+//@ ensures [C01.trunc-sum] len(result) == len(b)+t.length && forall(qk, 0, len(b), result[qk] == old(b[qk])) && hIsDigest(result[len(b):], hState(t.Hash))
+
+// ---- authenticator.go / hasher.go / confidentiality.go: algorithm tables (IPMI v2.0 tables 13-17..13-19)
+
+//@ func (*authenticationAlgorithmParams).AuthCode
+//@ props C01 C02
+//@ assigns nothing
+//@ ensures [C01.authcode-hmac] !isnil(result) && hState(result) == hInit(result) && hInit(result) == hmacKeyedBy(g.hashGen, kuid) && hSizeOf(result) == hashLenBy(g.hashGen) && isPlainHash(result)
+
+//@ func (*authenticationAlgorithmParams).SIK
+//@ props C01
+//@ assigns nothing
+//@ ensures [C01.sik-hmac] !isnil(result) && hState(result) == hInit(result) && hInit(result) == hmacKeyedBy(g.hashGen, kg) && hSizeOf(result) == hashLenBy(g.hashGen) && isPlainHash(result)
+
+//@ func (*authenticationAlgorithmParams).K
+//@ props C01
+//@ assigns nothing
+//@ ensures [C01.k-hmac] !isnil(result) && hState(result) == hInit(result) && hInit(result) == hmacKeyedBy(g.hashGen, sik) && hSizeOf(result) == hashLenBy(g.hashGen) && isPlainHash(result)
+
+//@ func (*authenticationAlgorithmParams).ICV
+//@ props C01 C02
+//@ assigns nothing
+//@ ensures [C02.icv-nonnil] !isnil(result)
+//@ ensures [C02.icv-fresh] hState(result) == hInit(result)
+//@ ensures [C02.icv-hmac] hInit(result) == hmacKeyedBy(g.hashGen, sik)
+//@ ensures [C02.icv-len] hSizeOf(result) == ite(g.icvLength == 0, hashLenBy(g.hashGen), g.icvLength)
+
+//@ func algorithmAuthenticationHashGenerator
+//@ props C01 C02 C12
+//@ assigns nothing
+//@ ensures [C12.auth-domain] (result1 == nil) == (a == ipmi.AuthenticationAlgorithmHMACSHA1 || a == ipmi.AuthenticationAlgorithmHMACMD5 || a == ipmi.AuthenticationAlgorithmHMACSHA256)
+//@ ensures [C12.auth-refuse] result1 != nil ==> isnil(result0)
+//@ ensures [C01.auth-sha1] a == ipmi.AuthenticationAlgorithmHMACSHA1 ==> !isnil(result0) && holdsFunc(result0.hashGen, "crypto/sha1.New") && result0.icvLength == 12
+//@ ensures [C01.auth-md5] a == ipmi.AuthenticationAlgorithmHMACMD5 ==> !isnil(result0) && holdsFunc(result0.hashGen, "crypto/md5.New") && result0.icvLength == 0
+//@ ensures [C01.auth-sha256] a == ipmi.AuthenticationAlgorithmHMACSHA256 ==> !isnil(result0) && holdsFunc(result0.hashGen, "crypto/sha256.New") && result0.icvLength == 16
